@@ -314,16 +314,23 @@ def check(cx):
         if not f:
             continue
         seen = set()
-        for b in f.blocks:
-            for s in b["stmts"]:
-                pl = s["rv"].get("p") or []
-                for pe in pl[1:]:
-                    if isinstance(pe, str) and pe.endswith(":" + RESULT):
-                        seen.add(pe[1:].split(":")[0])
+        # the loop body may be a closure of `try_for_each` and/or a helper (`undo_at(lsn)`): the whole family is the loop
+        fam4 = K.family(p, f)
+        if p.inline_mode:
+            fam4 = fam4 + [m_ for h_ in [p.fns.view(x) for x in p.reach_forward([f.id]) if x in p.raw_fns and p.raw_fns[x].impl_adt == RECUP
+                                       and x != f.id and p.transparent(x)] for m_ in K.family(p, h_)]
+        for g4 in fam4:
+            for b in g4.blocks:
+                for s in b["stmts"]:
+                    pls = [s["rv"].get("p") or []] + [(o.get("c") or o.get("m") or []) for o in (s["rv"].get("o") or []) if isinstance(s["rv"].get("o"), list) and isinstance(o, dict)]
+                    for pl in pls:
+                        for pe in pl[1:]:
+                            if isinstance(pe, str) and pe.endswith(":" + RESULT):
+                                seen.add(pe[1:].split(":")[0])
         cx.verdict(maps <= seen, r4, name + ":maps", f.where(), "consults %s" % sorted(seen & maps),
                    "%s ignores %s" % (name, sorted(maps - seen)))
         # each map hit leads to the matching handler
-        handlers = {c.callee.rsplit("::", 1)[-1] for c in f.calls() if c.callee.startswith(RECUP + "::")}
+        handlers = {c.callee.rsplit("::", 1)[-1] for g4 in fam4 for c in g4.calls() if c.callee.startswith(RECUP + "::")}
         pre = name.split("_")[1]
         want_h = {"%s_%s" % (pre, k) for k in ("insert", "delete", "update", "create", "alter", "drop")}
         cx.verdict(want_h <= handlers, r4, name + ":handlers", f.where(), "calls %s" % sorted(handlers),
